@@ -71,8 +71,9 @@ def atom(cond, pol):
 class Facts:
     """Must-hold branch facts per CFG block entry."""
 
-    def __init__(self, func):
+    def __init__(self, func, call_kills=False):
         self.f = func
+        self.call_kills = call_kills
         self.edge_facts = {}
         self.reads = {}
         self._in = None
@@ -101,6 +102,25 @@ class Facts:
 
     def _kill(self, facts, node):
         w = written_paths(node)
+        if self.call_kills and node.k == "CallExpr" and facts:
+            # a callee that receives a pointer may change anything reachable from it
+            passed = set()
+            for a in node.c:
+                if a is None:
+                    continue
+                aa = strip_casts(a)
+                p = access_path(aa)
+                if p and ("*" in aa.ty or p.startswith("&")):
+                    passed.add(p.lstrip("&"))
+            if passed:
+                out = set()
+                for fct in facts:
+                    rd = self.reads.get(fct[1], ())
+                    # only memory reachable THROUGH the passed pointer can change
+                    if any(r.startswith(q + "->") or r.startswith(q + "[") or (r.startswith(q + ".") ) for r in rd for q in passed):
+                        continue
+                    out.add(fct)
+                facts = frozenset(out)
         if not w:
             return facts
         out = set()
@@ -183,12 +203,24 @@ def const_of(n):
 
 
 def linear(n, resolve=None, depth=0):
-    """expr -> (path or None, offset) when expr == path + offset (or const)."""
+    """expr -> (paths, offset) when expr == sum(paths) + offset; `paths` is
+    None for a constant, a string for one path, a '+'-joined sorted string for
+    a sum of several distinct paths."""
+    r = _lin(n, resolve, depth)
+    if r is None:
+        return None
+    ps, off = r
+    if not ps:
+        return (None, off)
+    return ("+".join(sorted(ps)), off)
+
+
+def _lin(n, resolve, depth):
     n = strip_casts(n)
     if n is None:
         return None
     if n.v is not None:
-        return (None, n.v)
+        return ((), n.v)
     if n.k in ("DeclRefExpr", "MemberExpr", "ArraySubscriptExpr"):
         p = access_path(n)
         if p is None:
@@ -196,31 +228,30 @@ def linear(n, resolve=None, depth=0):
         if resolve is not None and n.k == "DeclRefExpr" and depth < 4:
             d = resolve(n.name)
             if d is not None:
-                r = linear(d, resolve, depth + 1)
+                r = _lin(d, resolve, depth + 1)
                 if r is not None:
                     return r
-        return (p, 0)
+        return ((p,), 0)
     if n.k == "BinaryOperator" and n.op in ("+", "-"):
-        a = linear(n.c[0], resolve, depth)
-        b = linear(n.c[1], resolve, depth)
+        a = _lin(n.c[0], resolve, depth)
+        b = _lin(n.c[1], resolve, depth)
         if a is None or b is None:
             return None
         if n.op == "+":
-            if a[0] is None:
-                return (b[0], a[1] + b[1])
-            if b[0] is None:
-                return (a[0], a[1] + b[1])
-            return None
-        if b[0] is None:
+            if set(a[0]) & set(b[0]):
+                return None
+            return (a[0] + b[0], a[1] + b[1])
+        if not b[0]:
             return (a[0], a[1] - b[1])
         return None
     if n.k == "UnaryOperator" and n.op in ("++", "--") and n.get("postfix"):
-        return linear(n.c[0], resolve, depth)
+        return _lin(n.c[0], resolve, depth)
     return None
 
 
 def upper_bound(conds, path, resolve=None):
-    """least upper bound on `path` implied by must-facts (None = unbounded)."""
+    """least upper bound on `path` (a linear-form key as returned by linear())
+    implied by must-facts (None = unbounded)."""
     best = None
     for c in conds:
         if c[0] == "switch":
@@ -229,27 +260,29 @@ def upper_bound(conds, path, resolve=None):
         if n.k != "BinaryOperator" or n.op not in CMP:
             continue
         op = n.op if pol else NEG[n.op]
-        l = linear(n.c[0], resolve)
-        r = linear(n.c[1], resolve)
-        if l is None or r is None:
-            continue
-        # normalise to  path + lo  OP  const
-        if l[0] == path and r[0] is None:
-            k = r[1] - l[1]
-        elif r[0] == path and l[0] is None:
-            k = l[1] - r[1]
-            op = SWAP[op]
-        else:
-            continue
-        ub = None
-        if op == "<":
-            ub = k - 1
-        elif op == "<=":
-            ub = k
-        elif op == "==":
-            ub = k
-        if ub is not None and (best is None or ub < best):
-            best = ub
+        for res in ((resolve,) if resolve is None else (resolve, None)):
+            l = linear(n.c[0], res)
+            r = linear(n.c[1], res)
+            if l is None or r is None:
+                continue
+            # normalise to  path + lo  OP  const
+            if l[0] == path and r[0] is None:
+                k = r[1] - l[1]
+                o = op
+            elif r[0] == path and l[0] is None:
+                k = l[1] - r[1]
+                o = SWAP[op]
+            else:
+                continue
+            ub = None
+            if o == "<":
+                ub = k - 1
+            elif o == "<=":
+                ub = k
+            elif o == "==":
+                ub = k
+            if ub is not None and (best is None or ub < best):
+                best = ub
     return best
 
 
